@@ -123,7 +123,11 @@ func gcSystem(n, events int) {
 		}
 	}
 	verifReach("end")
-	for i := range ctxs {
-		ctxs[i].Stop()
+	// (no Stop of unfinished nodes here: closing a CRDT resource waits for its broadcaster, which only notices at its
+	// next tick, and ticks are events of this harness)
+	if all {
+		for i := range ctxs {
+			ctxs[i].Stop()
+		}
 	}
 }
